@@ -167,6 +167,42 @@ func Solve(script string, quantified bool, timeoutS int, seed int, all bool) *So
 	return res
 }
 
+// smallModel: solvers like extreme values; a counterexample with slice lengths of 2^60 cannot be replayed.
+// Ask again with every slice length / capacity / offset among the inputs bounded by 64; a model of the bounded
+// query is a model of the original one. Nothing changes when the bounded query is not satisfiable.
+var smallVarRe = regexp.MustCompile(`\(declare-const (\|[^|]*\.(?:len|cap|off)![0-9]+\||[^ |]*\.(?:len|cap|off)![0-9]+) \(_ BitVec 64\)\)`)
+
+func smallModel(d *Discharged) {
+	if d.Obl == nil || d.Res == nil || d.Res.Status != "sat" {
+		return
+	}
+	big := false
+	for k, v := range d.Res.Model {
+		if strings.Contains(k, ".len!") || strings.Contains(k, ".cap!") {
+			if n, ok := parseSMTInt(v); ok && (!n.IsInt64() || n.Int64() > 2048) {
+				big = true
+			}
+		}
+	}
+	if !big {
+		return
+	}
+	script, q, _ := d.Obl.Script("", nil)
+	i := strings.LastIndex(script, "(check-sat)")
+	if i < 0 {
+		return
+	}
+	var sb strings.Builder
+	for _, m := range smallVarRe.FindAllStringSubmatch(script, -1) {
+		fmt.Fprintf(&sb, "(assert (bvule %s #x0000000000000040))\n", m[1])
+	}
+	r := Solve(script[:i]+sb.String()+script[i:], q, 10, 1, false)
+	if r.Status == "sat" && len(r.Model) > 0 {
+		r.Ms += d.Res.Ms
+		d.Res = r
+	}
+}
+
 // candidateModel: when no solver produced a model for a failing quantified obligation, ask for a
 // model of its quantifier-free approximation (quantified assumptions and axioms dropped). Such a
 // model is only a candidate input: it counts for nothing unless the replay on the real code confirms it.
